@@ -607,5 +607,5 @@ template<> class uniform_real_distribution<symx::sym> { std::uniform_real_distri
     typedef symx::sym result_type;
     uniform_real_distribution(double a=0, double b=1) : d(a,b) {}
     uniform_real_distribution(symx::sym a, symx::sym b) : d((double)a,(double)b) {}
-    template<class G> symx::sym operator()(G &g) { return symx::sym(std::round(d(g)*64)/64); } };
+    template<class G> symx::sym operator()(G &g) { return symx::sym::q(mpq_class(d(g))); } };   // exactly the double the real build draws
 }
